@@ -68,6 +68,34 @@ impl<const LIMIT: i64> Source for ZSrc<LIMIT> {
     }
 }
 
+/// a dual-role last stage, as every accumulating sink of the library is: `Filter` (the running sum), `Sink`, `Finalize`
+/// (the sum), acting on the thread-local — the last stage of a `source | … | sink` pipeline that is run by pulling it
+#[derive(Clone, Copy, Default)]
+pub struct ZSum;
+fn zsum_push(x: Q) -> Q {
+    ZSINK.with(|s| {
+        s.borrow_mut().push(x);
+        s.borrow().iter().fold(Q::int(0), |a, b| a + *b)
+    })
+}
+impl Filter<Q> for ZSum {
+    type Output = Q;
+    fn filter(&mut self, x: Q) -> Q {
+        zsum_push(x)
+    }
+}
+impl Sink<Q> for ZSum {
+    fn sink(&mut self, x: Q) {
+        zsum_push(x);
+    }
+}
+impl Finalize for ZSum {
+    type Output = String;
+    fn finalize(self) -> String {
+        ZSINK.with(|s| s.borrow().iter().fold(Q::int(0), |a, b| a + *b)).r()
+    }
+}
+
 type Z0 = ZAff<0, -1, 0>;
 type Z1 = ZAff<1, 2, 1>;
 type Z2 = ZAff<2, 1, 3>;
@@ -92,6 +120,10 @@ pub enum ZPipe {
     S2(Pipe<Pipe<S, Z0>, Z1>),
     S3(Pipe<S, Pipe<Z0, Z1>>),
     S4(Pipe<UnitPipe<S>, Z0>),
+    /// source first, dual-role sink last: pulled like a source, then finalised
+    X1(Option<Pipe<S, ZSum>>),
+    X2(Option<Pipe<Pipe<S, Z0>, ZSum>>),
+    X3(Option<Pipe<S, Pipe<Z0, ZSum>>>),
     #[cfg(feature = "or_source")]
     S5(<Pipe<S, Z0> as BitOr<Z1>>::Output),
 }
@@ -113,6 +145,9 @@ pub fn menu() -> Vec<(&'static str, &'static str, usize, char)> {
         ("S2", "P(P(S,L0),L1)", 2, 's'),
         ("S3", "P(S,P(L0,L1))", 2, 's'),
         ("S4", "P(U(S),L0)", 1, 's'),
+        ("X1", "P(S,L0)", 1, 'x'),
+        ("X2", "P(P(S,L0),L1)", 2, 'x'),
+        ("X3", "P(S,P(L0,L1))", 2, 'x'),
     ];
     if cfg!(feature = "or_sink") {
         m.push(("K5", "O(P(L0,L1),K)", 2, 'k'));
@@ -127,6 +162,12 @@ pub fn menu() -> Vec<(&'static str, &'static str, usize, char)> {
 pub fn describe(name: &str) -> String {
     let (_, shape, k, role) = *menu().iter().find(|e| e.0 == name).expect("harness: unknown static pipe");
     let leaves = LEAVES[..k].join("|");
+    if role == 'x' {
+        // the last leaf is the running sum (to the model: an accumulating stage with offset 0)
+        let mut l: Vec<&str> = LEAVES[..k - 1].to_vec();
+        l.push("p_acc;a=0");
+        return format!("pipe shape={} leaves={} source={} static={}", shape, l.join("|"), SOURCE, name);
+    }
     match role {
         'f' => format!("pipe shape={} leaves={} static={}", shape, leaves, name),
         'k' => format!("pipe shape={} leaves={} sink=own_collect static={}", shape, leaves, name),
@@ -157,6 +198,9 @@ pub fn build(name: &str) -> ZPipe {
         "S2" => ZPipe::S2(Pipe::new(Pipe::new(ZSrc, ZAff), ZAff)),
         "S3" => ZPipe::S3(Pipe::new(ZSrc, Pipe::new(ZAff, ZAff))),
         "S4" => ZPipe::S4(Pipe::new(UnitPipe::new(ZSrc), ZAff)),
+        "X1" => ZPipe::X1(Some(Pipe::new(ZSrc, ZSum))),
+        "X2" => ZPipe::X2(Some(Pipe::new(Pipe::new(ZSrc, ZAff), ZSum))),
+        "X3" => ZPipe::X3(Some(Pipe::new(ZSrc, Pipe::new(ZAff, ZSum)))),
         #[cfg(feature = "or_source")]
         "S5" => ZPipe::S5(Pipe::new(ZSrc::<4>, ZAff::<0, -1, 0>) | ZAff::<1, 2, 1>),
         _ => panic!("harness: unknown static pipe"),
@@ -180,6 +224,9 @@ impl ZPipe {
             ZPipe::S2(p) => p.source(),
             ZPipe::S3(p) => p.source(),
             ZPipe::S4(p) => p.source(),
+            ZPipe::X1(p) => p.as_mut().unwrap().source(),
+            ZPipe::X2(p) => p.as_mut().unwrap().source(),
+            ZPipe::X3(p) => p.as_mut().unwrap().source(),
             #[cfg(feature = "or_source")]
             ZPipe::S5(p) => p.source(),
             _ => panic!("harness: ppull on a non-source static pipe"),
@@ -206,6 +253,10 @@ impl ZPipe {
             #[cfg(feature = "or_sink")]
             ZPipe::K5(p) => p.take().unwrap().finalize(),
             ZPipe::K6(p) => p.take().unwrap().finalize(),
+            // (method-call syntax on the concrete type, as a user would write it)
+            ZPipe::X1(p) => p.take().unwrap().finalize(),
+            ZPipe::X2(p) => p.take().unwrap().finalize(),
+            ZPipe::X3(p) => p.take().unwrap().finalize(),
             _ => panic!("harness: pfin on a non-sink static pipe"),
         }
     }
